@@ -1,6 +1,9 @@
 package tso
 
-import "github.com/tikv/pd/pkg/typeutil"
+import (
+	"github.com/tikv/pd/pkg/typeutil"
+	"github.com/tikv/pd/server/election"
+)
 
 // VerifView exposes (physical ns, logical, last saved ns) of an allocator's oracle; 0 stands for the
 // zero time / "never saved".  Read-only; verification builds only (added through -overlay).
@@ -42,4 +45,16 @@ func (am *AllocatorManager) VerifMaxSuffix() int32 {
 // VerifSetMaxSuffix raises the manager's cached max suffix (what setting up dc-locations does).
 func (am *AllocatorManager) VerifSetMaxSuffix(s int32) {
 	am.compareAndSetMaxSuffix(s)
+}
+
+// VerifResetUserTimestamp calls resetUserTimestamp of the allocator's oracle (ignoreSmaller = true is the
+// MaxTS path of WriteTSO / the global synchronisation).
+func VerifResetUserTimestamp(a Allocator, ls *election.Leadership, tso uint64, ignoreSmaller bool) error {
+	switch x := a.(type) {
+	case *GlobalTSOAllocator:
+		return x.timestampOracle.resetUserTimestamp(ls, tso, ignoreSmaller)
+	case *LocalTSOAllocator:
+		return x.timestampOracle.resetUserTimestamp(ls, tso, ignoreSmaller)
+	}
+	return nil
 }
